@@ -364,10 +364,33 @@ def callsOf (fn field : String) : List (String × Bool) :=
 def insideOf (fn field method : String) : List String :=
   ((calls.find? (fun c => c.fn == fn && c.field == field && c.method == method)).map (·.inside)).getD []
 
-/-- no function looks a key up with a plain `Load` and later `Store`s on the same field (check-then-act in two critical sections) -/
+/-- the one place where a look-up and a later removal in the same function are deliberate: the block-wise receive path works on
+    the entry under the entry's own guard (a semaphore inside the value), not under the map's lock -/
+def checkThenActExceptions : List (String × String) := [("BlockWise.processReceivedMessage", "receivingMessagesCache")]
+
+/-- no function looks a key up with a plain `Load` and later `Store`s or `Delete`s on the same field (check-then-act in two
+    critical sections: a store-if-absent must be one `LoadOrStore`, a removal that wants the value one `LoadAndDelete`) -/
 def noCheckThenAct : Bool :=
   calls.all (fun c1 => calls.all (fun c2 =>
-    !(c1.file == c2.file && c1.fn == c2.fn && c1.field == c2.field && c1.method == "Load" && c2.method == "Store")))
+    !(c1.file == c2.file && c1.fn == c2.fn && c1.field == c2.field && c1.method == "Load" &&
+      (c2.method == "Store" || c2.method == "Delete") && !checkThenActExceptions.contains (c1.fn, c1.field))))
+
+def kindOf (field : String) : String := ((fieldKinds.find? (fun k => k.2.1 == field)).map (·.2.2)).getD "unknown"
+
+/-- look-ups on an expiring cache that deliberately use the embedded plain map's `LoadWithFunc` (which knows nothing about
+    expiry): they read a pooled request under the lock; `getSendingMessageCode` tests the expiry itself inside the callback -/
+def expiryBlindLookups : List (String × String) :=
+  [("BlockWise.getSendingMessageCode", "sendingMessagesCache"), ("BlockWise.continueSendingMessage", "sendingMessagesCache"),
+   ("BlockWise.getSentRequest", "sendingMessagesCache")]
+
+/-- `cache.Cache` embeds the plain `Map`; a method of the embedded map called on a cache value bypasses the cache's expiry
+    semantics (a store-if-absent through `LoadOrStoreWithFunc` never replaces an expired entry, `Store` overwrites a live
+    one).  On a field that is a cache only the cache's own methods are called — `Load`, `LoadOrStore`, `CheckExpirations` —
+    and `Delete`, which has nothing to do with expiry; the deliberate exceptions are listed. -/
+def cachesUseCacheMethods : Bool :=
+  calls.all (fun c => kindOf c.field != "cache" ||
+    ["Load", "LoadOrStore", "CheckExpirations", "Delete"].contains c.method ||
+    (c.method == "LoadWithFunc" && expiryBlindLookups.contains (c.fn, c.field)))
 
 /-- fields whose values are pooled messages owned by whoever put them there (the owner deletes the entry and then releases the message) -/
 def pooledFields : List String := ["sendingMessagesCache", "multicastRequests"]
@@ -378,7 +401,10 @@ def pooledReadUnderLock : Bool :=
     ["LoadWithFunc", "LoadOrStore", "Store", "Delete", "CheckExpirations"].contains c.method)
 
 /-- The callers rely on the atomicity the way it is proved:
-* no check-then-act on any of the tables; pooled messages are read under the lock only;
+* no check-then-act (`Load` … `Store` / `Delete`) on any of the tables; pooled messages are read under the lock only; on the
+  expiring caches only the cache's own (expiry-aware) methods are used, with the listed deliberate exceptions;
+* an observation is removed from its table by exactly one `LoadAndDelete` (one winner among concurrent `Cancel`s); the block-wise
+  reassembly entry is registered by exactly one `Cache.LoadOrStore` (an expired, unswept entry is replaced);
 * the datagram connection's response cache: `Store` is exactly one `LoadOrStore`, `Load` one `Load` (the element is an
   immutable byte slice);
 * block-wise `Do` registers its request with one `LoadOrStore` and removes it with a deferred `Delete`; `getSentRequest`
@@ -386,7 +412,13 @@ def pooledReadUnderLock : Bool :=
 * a request's token handler / an observation / a multicast handler is registered with one `LoadOrStore`; the limiter's
   per-path bookkeeping is done inside `LoadOrStoreWithFunc` / `ReplaceWithFunc`. -/
 theorem callers_use_atomic_forms :
-    noCheckThenAct = true ∧ pooledReadUnderLock = true ∧
+    noCheckThenAct = true ∧ pooledReadUnderLock = true ∧ cachesUseCacheMethods = true ∧
+    fieldKinds.map (fun k => (k.2.1, k.2.2)) =
+      [("c", "cache"), ("tokenHandlerContainer", "map"), ("midHandlerContainer", "map"), ("tokenHandlerContainer", "map"),
+       ("sendingMessagesCache", "cache"), ("receivingMessagesCache", "cache"), ("observations", "map"), ("endpointQueues", "map"),
+       ("multicastHandler", "map"), ("multicastRequests", "map")] ∧
+    callsOf "Handler.pullOutObservation" "observations" = [("LoadAndDelete", false)] ∧
+    callsOf "BlockWise.getCachedReceivedMessage" "receivingMessagesCache" = [("LoadOrStore", false)] ∧
     callsOf "messageCache.Store" "c" = [("LoadOrStore", false)] ∧
     callsOf "messageCache.Load" "c" = [("Load", false)] ∧
     callsOf "BlockWise.Do" "sendingMessagesCache" = [("LoadOrStore", false), ("Delete", true)] ∧
